@@ -72,7 +72,7 @@ def c18 (op : String) (j : Json) : Option (R Json) :=
       | .error e => pure (errJ e)
       | .ok ord =>
         pure (Json.mkObj [("ok", listJ ratsJ (pts.map fun p =>
-          (fun loc => tab f.nvdim fun c => interpAt (padded f M3.one ord c) loc) (locOf f (V3.ofList p)))),
+          valuesAt f M3.one ord (V3.ofList p))),
           ("margins", ratsJ (pts.map fun p => margin f (V3.ofList p)))])
   | "roundcbrt" => some do
       let q ← ratOfJson (← fld j "q")
